@@ -217,10 +217,12 @@ def _ops():
     # ---- distributions
     op("d_new", "CD2")(lambda L, a, k, e: L["MOD"](a[0]))
     op("d_marginal", "D")(lambda L, a, k, e: a[0].subdistribution(e["qubits"](a[0], k)))
-    op("d_mmd", "D", "D")(lambda L, a, k, e: L["compute_mmd"](a[0], a[1], e["params"]("sigma", k)))
-    op("d_nll", "D", "D")(lambda L, a, k, e: L["compute_nll"](a[0], a[1], e["params"]("epsilon", k)))
-    op("d_js", "D", "D")(lambda L, a, k, e: L["compute_js"](a[0], a[1], e["params"]("epsilon", k)))
-    op("d_eval", "D", "D")(lambda L, a, k, e: L["evaluate_distance"](a[0], a[1], L["compute_nll"], distance_measure_parameters=e["params"]("epsilon", k)))
+    # the parameter dictionaries (and the numpy bandwidth arrays inside them) are caller-owned pool members
+    op("d_mmd", "D", "D", "PD")(lambda L, a, k, e: L["compute_mmd"](a[0], a[1], a[2]))
+    op("d_nll", "D", "D", "PD")(lambda L, a, k, e: L["compute_nll"](a[0], a[1], a[2]))
+    op("d_js", "D", "D", "PD")(lambda L, a, k, e: L["compute_js"](a[0], a[1], a[2]))
+    op("d_eval", "D", "D", "PD")(lambda L, a, k, e: L["evaluate_distance"](
+        a[0], a[1], [L["compute_nll"], L["compute_mmd"], L["compute_js"]][k[0] % 3], distance_measure_parameters=a[2]))
     op("d_save", "D")(lambda L, a, k, e: L["save_dist"](a[0], e["path"](k)))
     op("d_save_list", "D", "D")(lambda L, a, k, e: L["save_dists"]([a[0], a[1]], "/d/dists.json"))
     op("d_props", "D")(lambda L, a, k, e: (a[0].get_number_of_subsystems(), repr(a[0])))
@@ -251,7 +253,7 @@ def _cheap_exp(g):
 NUMS = [2, 0.5, -1.5, 0, 1j, (1 + 2j), 1]
 OPS = _ops()
 
-MK_TYPES = ["C", "C", "C", "G", "P", "P", "P", "M", "D", "D", "W", "SM", "CD", "CD2", "V", "CL", "TL", "BL", "DD", "OD"]
+MK_TYPES = ["C", "C", "C", "G", "P", "P", "P", "M", "D", "D", "W", "SM", "CD", "CD2", "V", "CL", "TL", "BL", "DD", "OD", "PD", "PD"]
 
 
 class World:
@@ -318,6 +320,10 @@ class World:
             return {"t": "V", "n": n, "seed": r.getrandbits(30), "as_list": r.random() < 0.3}
         if t == "SM":
             return {"t": "SM", "spec": {s: r.choice([0.5, -1.25, 0, 2, 3.0]) for s in r.sample(syms + ["a", "b"], r.randint(0, 3))}}
+        if t == "PD":
+            sig = r.choice([None, 1.0, 0.1, 7.5, [0.25, 10.0], {"np": [0.5, 2.0, 30.0]}, {"np": [1.0]}])
+            eps = r.choice([None, 1e-9, 1e-6, 1e-3])
+            return {"t": "PD", "sigma": sig, "epsilon": eps}
         if t == "CD":
             return {"t": "CD", "spec": {"".join(str(r.randint(0, 1)) for _ in range(n)): r.randint(0, 6) for _ in range(r.randint(0, 4))}}
         if t == "CL":
@@ -473,6 +479,13 @@ class World:
                 sa = sympy.Symbol("a")
                 v = [0.5, sympy.cos(sa) * sympy.Rational(1, 2)] + [0] * (dim - 2)
             return L["Wavefunction"](v)
+        if t == "PD":
+            d = {}
+            if a["sigma"] is not None:
+                d["sigma"] = np.array(a["sigma"]["np"], dtype=float) if isinstance(a["sigma"], dict) else a["sigma"]
+            if a["epsilon"] is not None:
+                d["epsilon"] = a["epsilon"]
+            return d
         if t == "SM":
             return {sympy.Symbol(k): v for k, v in a["spec"].items()}
         if t == "CD":
